@@ -174,9 +174,9 @@ func (w *c09World) deliver(p *vnPacket, to *vnNode, senderIdent *vnIdent) {
 
 func TestVerifC09(t *testing.T) {
 	r := verifkit.NewReporter(t, "C09", "bind",
-		"4 real nodes (multi-address v2, v1-only, dual v1+v2) + 2 puppet peers certified for a victim's own address; PRNG schedules of tun traffic, poisoned lighthouse entries (peer's address mapped to another host's underlay address), puppet answers, drops, duplicates, misdelivery, virtual-time steps; distinct = tunnels audited (node, index) plus (node, peer, shape) and stage-2 outcome classes")
+		"6 real nodes (multi-address v2, v1-only, dual v1+v2 with equal and with different address sets per version) + 2 puppet peers certified for a victim's own address; PRNG schedules of tun traffic, poisoned lighthouse entries (peer's address mapped to another host's underlay address), puppet answers, drops, duplicates, misdelivery, virtual-time steps; distinct = tunnels audited (node, index) plus (node, peer, shape) and stage-2 outcome classes")
 	defer r.Done()
-	scen := verifkit.Scale(12, 400)
+	scen := verifkit.Scale(24, 600)
 	for sc := 0; sc < scen; sc++ {
 		if !verifkit.Mine(sc) {
 			continue
@@ -192,6 +192,9 @@ func TestVerifC09(t *testing.T) {
 				ca.issue(v2, "b", "10.1.0.2/16,fd00:1::2/64", "", nil),
 				ca.issue([]cert.Version{cert.Version1}, "c", "10.1.0.3/16", "", nil),
 				ca.issue([]cert.Version{cert.Version1, cert.Version2}, "d", "10.1.0.4/16", "", nil),
+				// dual-certificate peers whose two certificates list different address sets (v1: the IPv4 address only)
+				ca.issue([]cert.Version{cert.Version1, cert.Version2}, "e", "10.1.0.5/16,fd00:1::5/64", "", nil),
+				ca.issue([]cert.Version{cert.Version1, cert.Version2}, "f", "10.1.0.6/16,fd00:1::6/64", "", nil),
 			}
 			// puppets: one certified for a's own address only, one for b's address AND a's own address
 			px := ca.issue(v2, "x-claims-a", "10.1.0.1/16", "", nil)
@@ -263,16 +266,35 @@ func TestVerifC09(t *testing.T) {
 				}
 			}
 
-			steps := verifkit.Scale(30, 60)
+			steps := verifkit.Scale(60, 120)
 			for i := 0; i < steps; i++ {
-				switch k := rng.IntN(12); {
+				switch k := rng.IntN(15); {
 				case k < 5:
 					a, b := nodes[rng.IntN(len(nodes))], nodes[rng.IntN(len(nodes))]
 					if a == b {
 						continue
 					}
-					dst := b.Ident.Addrs()[0]
-					pkt, _ := vnUDP4(a.Ident.Addr(), dst, uint16(1000+i), 80, 0)
+					// any of the destination's addresses the source has a matching family for
+					var pkt []byte
+					das := b.Ident.Addrs()
+					dst := das[rng.IntN(len(das))]
+					if dst.Is6() {
+						var src netip.Addr
+						for _, x := range a.Ident.Addrs() {
+							if x.Is6() {
+								src = x
+							}
+						}
+						if !src.IsValid() {
+							dst = das[0]
+						} else {
+							pkt, _ = vnUDP6(src, dst, uint16(1000+i), 80, 0)
+							r.Count("sends_to_a_secondary_ipv6_address", 1)
+						}
+					}
+					if pkt == nil {
+						pkt, _ = vnUDP4(a.Ident.Addr(), dst, uint16(1000+i), 80, 0)
+					}
 					nw.TunSend(a, pkt)
 				case k < 7:
 					// poison: victim believes `peer` lives where another node / a puppet listens
@@ -312,6 +334,39 @@ func TestVerifC09(t *testing.T) {
 							r.Violation("C09/tunnel-to-own-address", fmt.Sprintf("scenario %d: %s accepted a handshake from a peer certified for %v, which includes %s's own address", sc, tgt.Name, pp.Ident.Addrs(), tgt.Name),
 								map[string]any{"scenario": sc, "node": tgt.Name, "peer_addrs": fmt.Sprint(pp.Ident.Addrs())})
 						}
+					}
+				case k < 11 && rng.IntN(2) == 0:
+					// tunnel churn on one node: promote a non-primary tunnel the way the connection manager does, or drop the
+					// primary for one of a peer's addresses locally
+					n := nodes[rng.IntN(len(nodes))]
+					hm := n.F.hostMap
+					hm.RLock()
+					var cands [][2]*HostInfo
+					var addrs []netip.Addr
+					for a, l := range hm.moreHosts {
+						for _, h := range l[1:] {
+							cands = append(cands, [2]*HostInfo{h, hm.Hosts[h.vpnAddrs[0]]})
+						}
+						addrs = append(addrs, a)
+					}
+					for a := range hm.Hosts {
+						addrs = append(addrs, a)
+					}
+					hm.RUnlock()
+					slices.SortFunc(addrs, func(x, y netip.Addr) int { return x.Compare(y) })
+					slices.SortFunc(cands, func(x, y [2]*HostInfo) int { return int(x[0].localIndexId) - int(y[0].localIndexId) })
+					if len(cands) > 0 && rng.IntN(2) == 0 {
+						c := cands[rng.IntN(len(cands))]
+						if c[1] != nil && c[1] != c[0] {
+							n.F.connectionManager.swapPrimary(c[0], c[1])
+							r.Count("non_primary_tunnels_promoted", 1)
+							w.audit("after promotion")
+						}
+					} else if len(addrs) > 0 {
+						n.C.CloseTunnel(addrs[rng.IntN(len(addrs))], true)
+						r.Count("tunnels_closed_locally", 1)
+						nw.Settle()
+						w.audit("after local close")
 					}
 				case k < 11:
 					nw.Advance(time.Duration(100+rng.IntN(2500)) * time.Millisecond)
